@@ -522,7 +522,7 @@ func (w *world) runQuery(q *metaq, who string) bool {
 	sort.Slice(must, func(i, j int) bool { return lessName(must[i], must[j]) })
 	for _, n := range must {
 		if !have[n] {
-			r.Violate("C42:missing-name", prefix+thing+"-missing", "%s: %s does not list %s although a visible series with live data (matching the condition, in the queried shards) carries it; got %v", who, q.text(), n, got)
+			r.Violate("C42:missing-name", prefix+thing+"-missing"+w.unindexedCarrier(q, n), "%s: %s does not list %s although a visible series with live data (matching the condition, in the queried shards) carries it; got %v", who, q.text(), n, got)
 			return false
 		}
 	}
@@ -536,4 +536,38 @@ func (w *world) runQuery(q *metaq, who string) bool {
 		r.Probe("probe_meta_shard_subset")
 	}
 	return true
+}
+
+// unindexedCarrier returns ":series-not-in-index" if a visible live series that carries the name (and matches the
+// condition) is, in a queried shard where it is live, not listed by the index under its measurement: the layout a
+// measurement drop racing with the first write of a series leaves behind (same suffix as on the read side).
+func (w *world) unindexedCarrier(q *metaq, n name) string {
+	hide := map[int]bool{}
+	if q.Auth {
+		for _, s := range q.Hide {
+			hide[s] = true
+		}
+	}
+	for s := 0; s < stor.NSeries; s++ {
+		if hide[s] || stor.SeriesMeas(s) != n.M || q.F != nil && !q.F.eval(s) {
+			continue
+		}
+		if n.K != "" {
+			if v, ok := stor.TagValue(s, n.K); !ok || n.V != "" && v != n.V {
+				continue
+			}
+		}
+		for _, sh := range q.shards() {
+			simrt.MuLock(&w.mu, 0)
+			live, _ := w.liveMaybe(s, []uint64{sh})
+			simrt.MuUnlock(&w.mu)
+			if !live {
+				continue
+			}
+			if listed, ok := w.indexLists(s, int(sh)); ok && !listed {
+				return ":series-not-in-index"
+			}
+		}
+	}
+	return ""
 }
